@@ -101,4 +101,21 @@ End ALG.
 (* the empty oracle: only the arithmetic fragment evaluates *)
 Definition no_un (_ : ufun) (_ : N) : option N := None.
 Definition no_bin (_ : bfun) (_ _ : N) : option N := None.
-Definition b64_arith : falg binary64 := b64_alg no_un no_bin.
+(* the only exact facts about libm used on the Coq side: pow(x, 1.0) = x (every entry of a Mul
+   dictionary goes through pow in the lambda visitor) and pow(x, 0.0) = 1 *)
+Definition exact_bin (f : bfun) (a b : N) : option N :=
+  match f with
+  | BPow => if N.eqb b bits_one then Some a
+            else if N.eqb b bits_zero then Some bits_one else None
+  | _ => None
+  end.
+Definition b64_arith : falg binary64 := b64_alg no_un exact_bin.
+
+(* the same algebra on bit patterns (values are plain numbers: convenient for computing examples
+   inside Coq, where equalities between Flocq floats would have to compare proof terms) *)
+Definition nb_alg (un : ufun -> N -> option N) (bin : bfun -> N -> N -> option N) : falg N :=
+  mk_falg N (fun z => b64_bits (b64_of_Z z)) (fun n d => b64_bits (b64_of_Q n d)) (fun b => b) lit_bits
+          (fun f a => option_map b64_bits (b64_un un f (b64_ofbits a)))
+          (fun f a b => option_map b64_bits (b64_bin bin f (b64_ofbits a) (b64_ofbits b)))
+          (fun a => b64_true (b64_ofbits a)) (fun a => b64_eq (b64_ofbits a) b64_one).
+Definition nb_arith : falg N := nb_alg no_un exact_bin.
